@@ -255,6 +255,54 @@ Proof.
 Qed.
 Print Assumptions C15_step_no_loss.
 
+(* NO LOSS with the premise only up to the return of the call: the "not disconnected" premise of
+   C15_step_no_loss is needed only for the part l2 of the history during which call c runs; what
+   follows its return, l3, is arbitrary. *)
+Theorem C15_step_no_loss_until_return : forall l1 c p lk ann l2 l3, find_call c (calls (srun l1)) = None ->
+  (exists k, find_call c (calls (srun (l1 ++ SAdd c p lk ann :: l2))) = Some k /\ call_done k = true) ->
+  (forall a u, In (mkPeer a ROLE_PROVIDER) (get_peers ROLE_PROVIDER (base (srun l1))) ->
+     (forall e, In e l2 -> ~ (exists q, e = SOther (Disconnected q) /\ p_addr q = a /\ p_role q = ROLE_PROVIDER)) ->
+     a <> p_addr p -> tbl_get lk (mkPeer a ROLE_PROVIDER) = Some u ->
+     exists recs, In (Announce p recs) (call_effects c ((l1 ++ SAdd c p lk ann :: l2) ++ l3)) /\ In (a, u) recs)
+  /\ (forall b u, In (mkPeer b ROLE_BIDDER) (get_peers ROLE_BIDDER (base (srun l1))) ->
+     (forall e, In e l2 -> ~ (exists q, e = SOther (Disconnected q) /\ p_addr q = b /\ p_role q = ROLE_BIDDER)) ->
+     p_role p = ROLE_PROVIDER -> tbl_get lk p = Some u ->
+     In (Announce (mkPeer b ROLE_BIDDER) [(p_addr p, u)]) (call_effects c ((l1 ++ SAdd c p lk ann :: l2) ++ l3))).
+Proof.
+  exact (fun l1 c p lk ann l2 l3 Hf Hd =>
+    conj (fun a u Ha Hn Hne Hlk => no_loss_providers_until_return l1 c p lk ann l2 l3 a u Hf Ha Hn Hne Hlk Hd)
+         (fun b u Hb Hn Hr Hlk => no_loss_bidders_until_return l1 c p lk ann l2 l3 b u Hf Hb Hn Hr Hlk Hd)).
+Qed.
+Print Assumptions C15_step_no_loss_until_return.
+
+(* ---- the mode-2 checker on the step model --------------------------------------------------------
+   PARTIAL.  Proved: (1) for EVERY schedule with pairwise distinct call ids whose atomic events are
+   AddPeers / Disconnected, the view clause of the overlap checker is silent on the step model's
+   final observation (the abstract sets kept by [windows] are the key sets of the base state reached
+   by [compile]); (2) the WHOLE overlap checker (self, bidder, extra, missing, hang, view) is silent
+   on the step model's observation for the directed schedules the driver generates first
+   (Topology_proofs.directed_schedule k, k = 1, 2, 3: provider Q known; k bidders connect and park
+   with their own message; provider P connects and is released through its message and its whole
+   fan-out; then everybody is released to the end) over the fixed pool of proofs/Topology_proofs.v
+   (addresses 1..5, every lookup succeeding, no faults) -- by evaluation; the observation is not
+   empty and a tampered one is flagged (overlap_checker_rejects_directed).
+   Missing: silence of the announce clauses and of the hang flags for arbitrary schedules (needs the
+   invariant "provider snapshot = initial window, bidder snapshot inside the window at the step
+   that reads it, effects so far sound / complete for the window" carried through compile and
+   windows); for arbitrary schedules it is tested on every run of the check only. *)
+Theorem C15_overlap_view_accepts_model : forall pr acts,
+  NoDup (started_calls acts) ->
+  Forall (fun a => match a with AOther (AddPeers _) | AOther (Disconnected _) => True | AOther _ => False | _ => True end) acts ->
+  view_ok (snd (windows abs_init [] acts)) pr (observe pr (base (srun (compile sinit acts))) []) = true.
+Proof. exact overlap_view_accepts_model. Qed.
+Print Assumptions C15_overlap_view_accepts_model.
+
+Theorem C15_overlap_checker_accepts_model_partial : forall k, (1 <= k <= 3)%nat ->
+  case_violations (model_overlap_case 0 [] [1; 2; 3; 4; 5; 9] (directed_schedule k)) = []
+  /\ existsb (fun x => negb (is_nil (snd x))) (c_calls (model_overlap_case 0 [] [] (directed_schedule k))) = true.
+Proof. exact overlap_checker_accepts_directed. Qed.
+Print Assumptions C15_overlap_checker_accepts_model_partial.
+
 (* ---- event level versus system level: the late add ----------------------------------------------
    C15_view is a statement about the events the Topology receives.  It is NOT the system-level claim
    "the reported view holds only peers the p2p layer still has": for a peer learned through gossip
